@@ -855,6 +855,36 @@ TARGETS.append(dict(
           "def parseFileLines (file : List (List Char)) : Except LoadErr Db := P0f.parseLines file\n",
 ))
 
+# ---------------------------------------------------------------------------------------------- C07: the HTTP payload reader
+def _hdr_ctor(fn, args, kw, env):
+    if args or set(kw) != {"name", "value"}:
+        raise NotTranslatable("PacketHeader(...) call shape")
+    return ("({ name := " + fn.coerce(kw["name"], env, "Bytes") + ", value := " + fn.coerce(kw["value"], env, "Bytes") + " } : Hdr)", "Rec:Hdr")
+
+
+TARGETS.append(dict(
+    module="pyp0f.net.layers.http.read", func="read_headers", file="ReadHeaders", lean="readHeaders", import_="P0f.Model.Http", open="P0f P0f.Py",
+    pyparams=["lines"], params=[("lines", "List Bytes")], ret="Opt:List:Rec:Hdr", lean_ret="Option (List Hdr)",
+    env={"lines": ("lines", "List:Bytes")}, bytes_elem="Char", sort_carried=True,
+    raises={"PacketError": "none", "ValueError": "none"}, list_types={"headers": "List:Rec:Hdr"},
+    records={"Hdr": {"name": (".name", "Bytes"), "value": (".value", "Bytes")}},
+    lean_types={"Bytes": "Bytes", "Rec:Hdr": "Hdr"},
+    calls={"PacketHeader": _hdr_ctor},
+    alias="def readHeaders_loop0 (lines : List Bytes) (l : List Bytes) (headers : List Hdr) : Option (List Hdr) :=\n"
+          "  match P0f.readHeadersGo l headers with | .ok h => some h | .error _ => none\n"
+          "def readHeaders (lines : List Bytes) : Option (List Hdr) := match P0f.readHeadersGo lines [] with | .ok h => some h | .error _ => none\n",
+))
+TARGETS.append(dict(
+    module="pyp0f.net.layers.http.read", func="read_first_line", file="ReadFirstLine", lean="readFirstLine", import_="P0f.Model.Http\nimport P0f.Model.DbParse", open="P0f P0f.Py",
+    pyparams=["line"], params=[("line", "Bytes")], ret="Opt:Tuple:Enum:Dir,Nat", lean_ret="Option (Dir × Nat)",
+    env={"line": ("line", "Bytes")}, bytes_elem="Char",
+    raises={"PacketError": "none", "ValueError": "none", "IndexError": "none"},
+    lean_types={"Bytes": "Bytes"},
+    # `HTTP_VERSION_PATTERN.match` + `int(group)`: the regular expression ^HTTP/1\.(\d)$ on a line without "\n" is the model's minorVersion
+    calls={"extract_minor_version": opt_call("minorVersion", ["Bytes"], "Nat")},
+    alias="def readFirstLine (line : Bytes) : Option (Dir × Nat) := (P0f.readFirstLine line).map fun r => (if r.1 then Dir.req else Dir.resp, r.2)\n",
+))
+
 # ---------------------------------------------------------------------------------------------- C18: the writers
 TARGETS.append(dict(
     module="pyp0f.net.layers.tcp.options", func="TCPOptions.dump", file="DumpLayout", lean="dumpLayout", import_="P0f.Model.TcpOptions", open="P0f",
